@@ -41,6 +41,11 @@ func c10Paths() []c10Path {
 		st := st
 		ps = append(ps, c10Path{"auto.New(" + st + ")", func() tabular.Table { return auto.New(st) }})
 	}
+	// a style nobody knows still creates a table (which refuses to render until it is given a decoration)
+	for _, st := range []string{"c10-no-such-style", "", "texttable.c10-nope"} {
+		st := st
+		ps = append(ps, c10Path{"auto.New(" + st + ")", func() tabular.Table { return auto.New(st) }})
+	}
 	return ps
 }
 
@@ -54,6 +59,10 @@ type c10Route struct {
 	name string
 	f    func(t tabular.Table) (string, error)
 }
+
+// c10Mutating prefixes the name of a route which itself reconfigures the object it is handed (such a route is not
+// used on top of wrapper chains whose members are rendered again afterwards).
+const c10Mutating = "[reconfigures its argument] "
 
 func viaTo(f func(w io.Writer) error) (string, error) {
 	// the destination's dynamic type rotates: nothing a renderer writes may depend on it
@@ -156,6 +165,28 @@ func c10Targets() []c10Target {
 				return viaTo(func(w io.Writer) error { return auto.RenderTo(t, w, name) })
 			}},
 			{"auto.Wrap(t,TEXTTABLE.NAME).Render", func(t tabular.Table) (string, error) { return auto.Wrap(t, "TEXTTABLE."+name).Render() }},
+			// what auto returns for a text style is a *texttable.TextTable the program may go on configuring
+			// (the repository's own inspection example does): one made for an unknown style and then given a
+			// decoration is a text table like any other
+			{"auto.Wrap(t,unknown) type-asserted, then SetDecorationNamed(NAME).Render", func(t tabular.Table) (string, error) {
+				tt, ok := auto.Wrap(t, "c10-no-such-style").(*texttable.TextTable)
+				if !ok {
+					return "", fmt.Errorf("auto.Wrap for an unknown style did not return a *texttable.TextTable")
+				}
+				if _, err := tt.SetDecorationNamed(name); err != nil {
+					return "", err
+				}
+				return tt.Render()
+			}},
+			{c10Mutating + "the table itself if it is a *TextTable (else auto.Wrap(t,'')), then SetDecoration(Named(NAME)).Render", func(t tabular.Table) (string, error) {
+				tt, ok := t.(*texttable.TextTable)
+				if !ok {
+					if tt, ok = auto.Wrap(t, "").(*texttable.TextTable); !ok {
+						return "", fmt.Errorf("auto.Wrap for an empty style did not return a *texttable.TextTable")
+					}
+				}
+				return tt.SetDecoration(decoration.Named(name)).Render()
+			}},
 		}})
 	}
 	return ts
@@ -173,6 +204,25 @@ var c10Wrappers = []struct {
 	{"markdown.Wrap", func(t tabular.Table) tabular.Table { return markdown.Wrap(t) }},
 	{"texttable.Wrap", func(t tabular.Table) tabular.Table { return texttable.Wrap(t) }},
 	{"auto.Wrap(utf8-light)", func(t tabular.Table) tabular.Table { return auto.Wrap(t, "utf8-light") }},
+	// wrappers carrying a configuration of their own, which whatever is wrapped around them later must leave alone
+	{"texttable.Wrap+ascii-simple", func(t tabular.Table) tabular.Table {
+		return texttable.Wrap(t).SetDecoration(decoration.ASCIIBoxSimple())
+	}},
+	{"texttable.Wrap+unknown-name", func(t tabular.Table) tabular.Table {
+		tt, _ := texttable.Wrap(t).SetDecorationNamed("c10-no-such-decoration")
+		return tt
+	}},
+	{"html.Wrap+caption+id", func(t tabular.Table) tabular.Table {
+		h := html.Wrap(t)
+		h.Caption, h.Id = "inner caption", "inner-id"
+		return h
+	}},
+	{"auto.Wrap(no-such-style)", func(t tabular.Table) tabular.Table { return auto.Wrap(t, "c10-no-such-style") }},
+}
+
+// c10Renderer is what every wrapper offers.
+type c10Renderer interface {
+	Render() (string, error)
 }
 
 const c10Fam = gen.FAscii | gen.FNewline | gen.FWide | gen.FCombining | gen.FCSV | gen.FHTML | gen.FMD | gen.FEmoji | gen.FEdge
@@ -287,16 +337,39 @@ func c10Run(c *Ctx, i int, r *gen.R) {
 			t := fresh(p)
 			depth := r.Range(1, 3)
 			chain := p.name
+			type link struct {
+				name   string
+				w      c10Renderer
+				out    string
+				failed bool
+			}
+			var links []link
 			for d := 0; d < depth; d++ {
 				w := c10Wrappers[r.Intn(len(c10Wrappers))]
 				t = w.f(t)
 				chain = w.name + "(" + chain + ")"
+				if rd, ok := t.(c10Renderer); ok {
+					o, e := rd.Render()
+					links = append(links, link{chain, rd, o, e != nil})
+				}
 			}
 			rt := tg.routes[r.Intn(len(tg.routes))]
+			for strings.HasPrefix(rt.name, c10Mutating) {
+				rt = tg.routes[r.Intn(len(tg.routes))]
+			}
 			out, err := rt.f(t)
 			c.Rec.Count("nested_wrapper_chains", 1)
 			if !compare(fmt.Sprintf("%s on %s", rt.name, chain), out, err) {
 				return
+			}
+			// every wrapper of the chain still is what it was before something was wrapped around it and rendered
+			for _, l := range links {
+				o, e := l.w.Render()
+				c.Rec.Count("inner_wrappers_rendered_again_after_being_wrapped", 1)
+				if o != l.out || (e != nil) != l.failed {
+					c.Rec.Violate("inner-wrapper-changed-by-outer:"+tg.format, fmt.Sprintf("the wrapper %s rendered %q (error=%v) before it was wrapped; after %s was applied on top of the chain %s it renders %q (error=%v)", l.name, l.out, l.failed, rt.name, chain, o, e != nil), cs)
+					return
+				}
 			}
 		}
 	}
